@@ -1,3 +1,96 @@
-import NiftyVerif.Model.Field
+/-
+  C06 — Field arithmetic and contractions follow array semantics with volumes.
+  Property theorems only (helper lemmas: Lemmas/Field.lean; executable model: Model/Field.lean, which transcribes
+  nifty/cl/field.py, multi_field.py, domain_tuple.py and utilities.parse_spaces — see the header there).
+  Obligations are listed in harness/props/c06.py.  All statements hold for every number of sub-domains, every
+  shape, every `spaces` value and all data in any field `K` (the driver runs `K = CRat`, exact complex rationals).
+-/
+import NiftyVerif.Lemmas.Field
+
 namespace NiftyVerif.C06
+open NiftyVerif.FieldM
+
+variable {K : Type}
+
+/-- Field.weight(power, spaces) multiplies every entry by the `power`-th power of the volume factors of exactly the
+    listed sub-domains (scalar `dvol`s and broadcast array `dvol`s alike); domain and identity are unchanged. -/
+theorem weight_spec [Field K] [DecidableEq K] (f g : Fld K) (p : Int) (sp : Spaces) (h : weight f p sp = .ok g) :
+    ∃ l, parseSpaces sp f.subs.length = .ok l ∧ g.subs = f.subs ∧ g.dom = f.dom ∧
+      ∀ idx, g.val idx = f.val idx * prodOver l (fun ind => ipow (dvolAt f.subs ind idx) p) :=
+  weight_val f g p sp h
+
+-- non-vacuity: one sub-domain with dvol = [1/2, 2], data [3, 5], power 2 -> [3/4, 20]
+example :
+    let f : Fld Rat := ⟨0, [⟨[2], .vector #[1/2, 2], none⟩], DT.float, fun i => if i.headD 0 = 0 then 3 else 5⟩
+    (match weight f 2 .none with | .ok g => [g.val [0], g.val [1]] | .error _ => []) = [3/4, 20] := by decide +kernel
+
+/-- Field.integrate(spaces), on BOTH code paths (all volume elements scalar: `sum * scalar_weight`; otherwise
+    `weight(1).sum`), is the sum over the contracted index fibre of value × volume factors. -/
+theorem integrate_eq_sum_weight [Field K] [DecidableEq K] (f g : Fld K) (sp : Spaces)
+    (h : integrate f sp = .ok g) :
+    ∃ l, parseSpaces sp f.subs.length = .ok l ∧ g.subs = sel false (maskOf f.subs.length l) f.subs ∧
+      ∀ o, g.val o = sumOver (allIdx (sel true (maskOf f.subs.length l) f.sizes)) (fun c =>
+        f.val (merge (maskOf f.subs.length l) o c) *
+          prodOver l (fun ind => dvolAt f.subs ind (merge (maskOf f.subs.length l) o c))) := by
+  unfold integrate at h
+  cases hsw : scalarWeight f.subs sp with
+  | error e => simp only [hsw] at h; cases h
+  | ok r =>
+    cases r with
+    | some swgt =>
+      simp only [hsw] at h
+      unfold fsum at h
+      cases hp : parseSpaces sp f.subs.length with
+      | error e => simp only [hp] at h; cases h
+      | ok l =>
+        simp only [hp, Except.ok.injEq] at h
+        subst h
+        refine ⟨l, rfl, rfl, fun o => ?_⟩
+        simp only [smulFloat, contractFld, contract]
+        rw [← sumOver_mul_right]
+        apply sumOver_congr
+        intro c _
+        rw [((scalarWeight_spec f.subs sp l hp _ hsw (merge (maskOf f.subs.length l) o c)).1 swgt rfl).1]
+    | none =>
+      simp only [hsw] at h
+      cases hw : weight f 1 sp with
+      | error e => simp only [hw] at h; cases h
+      | ok tmp =>
+        simp only [hw] at h
+        obtain ⟨l, hp, hsubs, _, hval⟩ := weight_val f tmp 1 sp hw
+        unfold fsum at h
+        rw [hsubs, hp] at h
+        simp only [Except.ok.injEq] at h
+        subst h
+        refine ⟨l, hp, by simp only [contractFld, hsubs], fun o => ?_⟩
+        simp only [contractFld, contract, Fld.sizes, hsubs]
+        apply sumOver_congr
+        intro c _
+        rw [hval]
+        simp only [ipow_one]
+
+/-- Operands on different domains are rejected, and nothing else is: a binary operation fails (with the error of
+    `check_object_identity`) exactly when the two DomainTuple objects differ. -/
+theorem domain_mismatch_rejected (op : K → K → K) (dt : DT → DT → DT) (f g : Fld K) :
+    (g.dom ≠ f.dom → binop op dt f g = .error "ValueError") ∧
+    (g.dom = f.dom → ∃ r, binop op dt f g = .ok r ∧ r.dom = f.dom ∧ r.subs = f.subs ∧
+        ∀ i, r.val i = op (f.val i) (g.val i)) := by
+  constructor
+  · intro h; simp [binop, h]
+  · intro h
+    exact ⟨{ f with dt := dt f.dt g.dt, val := fun i => op (f.val i) (g.val i) }, by simp [binop, h], rfl, rfl,
+      fun _ => rfl⟩
+
+/-- the same for dot products (any `spaces`) and for MultiFields (identity of the MultiDomain objects) -/
+theorem domain_mismatch_rejected_vdot [Add K] [Mul K] [OfNat K 0] (conj : K → K) (f g : Fld K) (sp : Spaces)
+    (a b : MFld K) (op : Fld K → Fld K → Except String (Fld K)) :
+    (g.dom ≠ f.dom → vdot conj f g sp = .error "ValueError" ∧ sVdot conj f g = .error "ValueError") ∧
+    (a.dom ≠ b.dom → mbinop op a b = .error "ValueError" ∧ msVdot conj b a = .error "ValueError") := by
+  constructor
+  · intro h; simp [vdot, sVdot, h]
+  · intro h; simp [mbinop, msVdot, h]
+
+example : binop (· + ·) max (⟨0, [], 2, fun _ => (1 : Rat)⟩ : Fld Rat) ⟨1, [], 2, fun _ => 1⟩ = .error "ValueError" := by
+  simp [binop]
+
 end NiftyVerif.C06
